@@ -435,7 +435,7 @@ def run(ctx):
     rep = Report('C08', 'model_checking')
     thorough = not ctx.quick
     names = sorted(registry(n).Meta.name for n in registry.all())
-    budget = 120 if ctx.quick else 900
+    budget = 400 if ctx.quick else 1800
     classical = [n for n in names if spec.logic_info(n)['classical']]
     with mp.Pool(ctx.jobs) as pool:
         ar_lim = pool.apply_async(limit_unit, (budget,))
